@@ -191,42 +191,57 @@ fn reuse_program(ctx: &mut WorkerCtx, code: &[u8], prev: &Option<(Vec<u8>, Vec<h
     }
     let budget = 300;
     for (bi, c) in execs.iter().enumerate() {
-        let (r0, base) = diff::run_logged(c, Mode::Limited(budget), &script, 4096, Arm::default());
-        // history: exec(e1) exec(e2 = previous program) exec(e1) exec(e1)
-        let mut runs = Vec::new();
+        // baselines: each observation taken from a *fresh* executor that has done nothing else
+        let fresh = |mode: Mode| -> Option<(hshim::exec::RunResult, Vec<hshim::env::Act>)> {
+            compile(c.backend, Width::W8, 2, text).ok().map(|f| diff::run_logged(&f, mode, &script, 4096, Arm::default()))
+        };
+        let Some((l0, llog0)) = fresh(Mode::Limited(budget)) else { continue };
+        let Some((z0, zlog0)) = fresh(Mode::Limited(0)) else { continue };
+        // the unlimited entry is only used when the limited run finished (it has no budget)
+        let exec0 = if l0.finished == Some(true) { fresh(Mode::Execute) } else { None };
+        let mc0: Vec<Option<Vec<u8>>> = [(false, true), (true, true), (false, false)]
+            .iter()
+            .map(|&(l, s)| compile(c.backend, Width::W8, 2, text).ok().and_then(|f| f.machine_code(l, s)))
+            .collect();
+        // one executor, a history mixing every entry point and another executor in between
+        let problems: std::cell::RefCell<Vec<String>> = std::cell::RefCell::new(Vec::new());
+        let check = |what: &str, got: (hshim::exec::RunResult, Vec<hshim::env::Act>), want: &(hshim::exec::RunResult, Vec<hshim::env::Act>)| {
+            if got.1 != want.1 || got.0.finished != want.0.finished || got.0.budget_left != want.0.budget_left {
+                problems.borrow_mut().push(format!(
+                    "{what}: {} / finished {:?} / budget left {} but a fresh executor gives {} / {:?} / {}",
+                    diff::trace_str(&got.1),
+                    got.0.finished,
+                    got.0.budget_left,
+                    diff::trace_str(&want.1),
+                    want.0.finished,
+                    want.0.budget_left
+                ));
+            }
+        };
+        let base_l = (l0.clone(), llog0.clone());
+        let base_z = (z0.clone(), zlog0.clone());
+        check("1st execute_limited", diff::run_logged(c, Mode::Limited(budget), &script, 4096, Arm::default()), &base_l);
         if let Some((_, pe)) = prev {
             let _ = diff::run_logged(&pe[bi], Mode::Limited(budget), &script, 4096, Arm::default());
         }
-        runs.push(diff::run_logged(c, Mode::Limited(budget), &script, 4096, Arm::default()));
-        // a second executor for the same program, created after the first has run
-        if let Ok(c2) = compile(c.backend, Width::W8, 2, text) {
-            runs.push(diff::run_logged(&c2, Mode::Limited(budget), &script, 4096, Arm::default()));
+        if let Some(e0) = &exec0 {
+            check("execute after execute_limited", diff::run_logged(c, Mode::Execute, &script, 4096, Arm::default()), e0);
         }
-        runs.push(diff::run_logged(c, Mode::Limited(budget), &script, 4096, Arm::default()));
-        ctx.count("evaluations", runs.len() as u64 + 1);
-        ctx.count("executions", runs.len() as u64 + 1);
-        for (k, (r, log)) in runs.iter().enumerate() {
-            if *log != base || r.finished != r0.finished || r.budget_left != r0.budget_left {
-                fail(
-                    ctx,
-                    &format!("reuse-{}", c.backend.name()),
-                    "differs",
-                    Width::W8,
-                    2,
-                    code,
-                    format!(
-                        "run {} of the history differs from the executor's first run: {} / finished {:?} / budget left {} vs {} / {:?} / {}",
-                        k + 2,
-                        diff::trace_str(log),
-                        r.finished,
-                        r.budget_left,
-                        diff::trace_str(&base),
-                        r0.finished,
-                        r0.budget_left
-                    ),
-                );
-                break;
+        check("execute_limited(0) after execute", diff::run_logged(c, Mode::Limited(0), &script, 4096, Arm::default()), &base_z);
+        for (k, &(l, s)) in [(false, true), (true, true), (false, false)].iter().enumerate() {
+            if c.machine_code(l, s) != mc0[k] {
+                problems.borrow_mut().push(format!("print_mc({l},{s}) after executions differs from a fresh executor's"));
             }
+        }
+        check("execute_limited after print_mc", diff::run_logged(c, Mode::Limited(budget), &script, 4096, Arm::default()), &base_l);
+        if let Some(e0) = &exec0 {
+            check("execute at the end", diff::run_logged(c, Mode::Execute, &script, 4096, Arm::default()), e0);
+        }
+        ctx.count("evaluations", 8);
+        ctx.count("executions", 8);
+        let problems = problems.into_inner();
+        if !problems.is_empty() {
+            fail(ctx, &format!("reuse-{}", c.backend.name()), "differs", Width::W8, 2, code, problems.join(" | "));
         }
     }
     if code.iter().any(|&c| c == b'[' || c == b'.') {
@@ -491,8 +506,9 @@ pub fn info(tier: Tier) -> CheckInfo {
              (12,no fuse), machine code for (unlimited,checked), (limited,checked), (unlimited,unchecked)) per (program,width,level) is \
              computed by two different worker processes (different std hash seeds, ASLR disabled so embedded runtime addresses agree) \
              and twice inside each with unrelated programs compiled in between; all observations must agree. Reuse: for every program \
-             of the small spaces and each backend the history exec(e1) exec(e_prev) exec(e1) create(e1') exec(e1') exec(e1) on fresh \
-             contexts: log, finished flag and remaining budget equal the first run. Scaling: {} families (nested counted loops, chained \
+             of the small spaces and each backend one executor runs the history execute_limited(300), (another executor), execute, \
+             execute_limited(0), print_mc x3, execute_limited(300), execute on fresh contexts; log, finished flag, remaining budget and \
+             machine code must equal those of fresh executors that did nothing else (differential oracle, no expected values). Scaling: {} families (nested counted loops, chained \
              copy / add / double / product idioms, polynomial towers, nested moves) for n up to {}: every create finishes within {} s in \
              an isolated process with a 6 GiB address-space limit and the bytecode size grows no faster than n^4 between consecutive sizes. evaluations = create calls / digests / \
              executions; distinct = distinct programs with a loop.",
